@@ -53,8 +53,13 @@ def run_property(prop, tier, seed, only=None):
         return 3
     for c in ded.canaries:
         if not c.get("refuted"):
-            print(f"CHECKER-ERROR {prop}: canary {c['name']} was NOT refuted - engine unsound or vacuous")
-            return 3
+            # a wrong postcondition verified.  If the right postcondition of the same function ALSO verifies the engine is
+            # vacuous/unsound (checker error).  If the right one is refuted, the tree simply behaves like the canary's
+            # wrong spec - the refuted obligation below is the verdict.
+            fn_bad = any(o.status == "refuted" and o.function == c.get("function") for o in ded.obligations)
+            if not fn_bad:
+                print(f"CHECKER-ERROR {prop}: canary {c['name']} was NOT refuted - engine unsound or vacuous")
+                return 3
     os.makedirs(core.REPLAYS, exist_ok=True)
     for o in ded.obligations:
         if o.status == "discharged":
